@@ -9,6 +9,10 @@ def sweep(tier="quick", seed=0, unsupported=()):
 
 
 def replay(contract, label, model, note=""):
+    if contract.startswith("Conv2D.layouts"):
+        from . import connections as _cx
+
+        return _cx.replay_layouts(model)
     f, n = tr.sweep_c18("quick", 0)
     if f:
         return {"reproduced": True, "failure": f[0], "concrete": f[0]["input"], "search": {"points_tried": n}}
